@@ -15,7 +15,27 @@ _H = "src/torrent/tracker/tracker_state.h"
 _C = "src/torrent/tracker/tracker_state.cc"
 _T = "src/tracker/tracker_controller.cc"
 
+def _enum_pos(name):
+    """position of an enumerator inside `enum event_enum { ... }` (enumerators without initialisers)"""
+    def conv(m):
+        names = [x.strip() for x in m.group(1).split(",") if x.strip()]
+        if any("=" in x for x in names):
+            raise ValueError("explicit enumerator values")
+        return names.index(name)
+    return conv
+
+
+_E = r"enum event_enum \{([^}]*)\}"
+_U = "src/tracker/tracker_udp.cc"
+
 ENTRIES = [
+    # numeric values of TrackerState::event_enum; TrackerUdp::prepare_announce writes m_send_state raw as the
+    # BEP-15 event code (trk_udp_event_raw = 1 iff that line is still there)
+    ("trk_event_none", _H, _E, "Z", _enum_pos("EVENT_NONE")),
+    ("trk_event_completed", _H, _E, "Z", _enum_pos("EVENT_COMPLETED")),
+    ("trk_event_started", _H, _E, "Z", _enum_pos("EVENT_STARTED")),
+    ("trk_event_stopped", _H, _E, "Z", _enum_pos("EVENT_STOPPED")),
+    ("trk_udp_event_raw", _U, r"buffer\.write_32\((m_send_state)\);", "Z", lambda m: 1),
     ("trk_default_min_interval", _H, r"\bdefault_min_interval\s*=\s*([\d\s*]+)s;", "Z", _prod),
     ("trk_min_min_interval", _H, r"\bmin_min_interval\s*=\s*([\d\s*]+)s;", "Z", _prod),
     ("trk_max_min_interval", _H, r"\bmax_min_interval\s*=\s*([\d\s*]+)s;", "Z", _prod),
